@@ -271,7 +271,7 @@ func runCase(bin *tbatch.Binary, k int, f *tgen.File, steps []step) (int, error)
 		j.K = k
 		jobs = append(jobs, j)
 	}
-	res, err := bin.Run(jobs, nil, 180*time.Second)
+	res, err := bin.Run(jobs, nil, 900*time.Second)
 	if err != nil {
 		return 0, fmt.Errorf("harness: %v", err)
 	}
@@ -373,8 +373,17 @@ func TestPropFailStop(t *testing.T) {
 		defer bin.Close()
 		for k, f := range files {
 			a := genBigArgs.Draw(t, "args")
+			// nested loops multiply: keep the iteration counts at about 150 per path, so that the
+			// document stays in the megabyte range
+			if d := tgen.LoopDepth(f); d > 1 {
+				limit := []int{150, 150, 12, 5, 3}[min(d, 4)]
+				a.N = min(a.N, limit)
+				if len(a.XS) > limit {
+					a.XS = a.XS[:limit]
+				}
+			}
 			// learn the document length with a first plain render (cheap: same process start)
-			res, err := bin.Run([]tbatch.Job{tbatch.Plain(k, a)}, nil, 60*time.Second)
+			res, err := bin.Run([]tbatch.Job{tbatch.Plain(k, a)}, nil, 600*time.Second)
 			if err != nil {
 				panic("harness: " + err.Error())
 			}
